@@ -136,6 +136,74 @@ def build_records(quick: bool) -> list[dict[str, Any]]:
             got = reg._changing.get_handlers(c)
             exp = expected if reason == 'create' else 1
             recs.append({'kind': 'dedup', 'how': f'{twice_kind}/{reason}', 'invocations': len(got), 'expected': exp})
+    recs += selector_records()
+    return recs
+
+
+def sel_fn_true(resource): return True
+def sel_fn_plural(resource): return resource.plural == 'things'
+
+
+def selector_records() -> list[dict[str, Any]]:
+    """The resource-selector criterion: every way of naming resources (docs/resources.rst) against a small cluster with two
+    versions of one kind (one preferred), a namesake in another group, another kind sharing a category, and the two kinds of
+    Kubernetes events; the real Selector.check() and the real registry decide, Filters!SelMatches is the reference."""
+    import kopf
+    from kopf._cogs.structs import bodies, ephemera, patches, references
+    from kopf._core.engines import indexing
+    from kopf._core.intents import causes
+    log = logging.getLogger('c15')
+    RES = [
+        dict(group='example.com', version='v1', plural='things', kind='Thing', singular='thing', shortcuts=['th'], categories=['catx'], preferred=True),
+        dict(group='example.com', version='v1beta1', plural='things', kind='Thing', singular='thing', shortcuts=['th'], categories=['catx'], preferred=False),
+        dict(group='other.io', version='v1', plural='things', kind='Thing', singular='thing', shortcuts=[], categories=[], preferred=True),
+        dict(group='example.com', version='v1', plural='widgets', kind='Widget', singular='widget', shortcuts=['wd'], categories=['catx'], preferred=True),
+        dict(group='', version='v1', plural='events', kind='Event', singular='event', shortcuts=['ev'], categories=[], preferred=True),
+        dict(group='events.k8s.io', version='v1', plural='events', kind='Event', singular='event', shortcuts=['ev'], categories=[], preferred=True),
+        dict(group='', version='v1', plural='pods', kind='Pod', singular='pod', shortcuts=['po'], categories=['all'], preferred=True),
+    ]
+    names = [('plural', 'things'), ('kind', 'Thing'), ('singular', 'thing'), ('shortcut', 'th'), ('category', 'catx'), ('category', 'all'),
+             ('any', 'things'), ('any', 'Thing'), ('any', 'thing'), ('any', 'th'), ('any', 'catx'), ('any', 'pods'), ('any', 'events'),
+             ('everything', ''), ('fn', 'true'), ('fn', 'plural')]
+    recs = []
+    for g, v, (nt, nm) in itertools.product([None, 'example.com', 'other.io', ''], [None, 'v1', 'v1beta1'], names):
+        if nt == 'fn' and (g is not None or v is not None):
+            continue           # a callable stands alone
+        kw: dict[str, Any] = {}
+        if g is not None: kw['group'] = g
+        if v is not None: kw['version'] = v
+        if nt == 'any': args, kws = (nm,), kw
+        elif nt == 'everything': args, kws = (kopf.EVERYTHING,), kw
+        elif nt == 'fn': args, kws = ({'true': sel_fn_true, 'plural': sel_fn_plural}[nm],), {}
+        else: args, kws = (), dict(kw, **{nt: nm})
+        try:
+            if nt in ('any', 'everything') and kw:         # positional forms: (group, version, name) / (group, name)
+                pos = [x for x in (g, v) if x is not None] + list(args)
+                if g is None:
+                    continue       # a version without a group cannot be given positionally
+                sel = references.Selector(*pos)
+            else:
+                sel = references.Selector(*args, **kws)
+        except TypeError:
+            continue
+        for r_ in RES:
+            res = references.Resource(group=r_['group'], version=r_['version'], plural=r_['plural'], kind=r_['kind'], singular=r_['singular'],
+                                      shortcuts=frozenset(r_['shortcuts']), categories=frozenset(r_['categories']), preferred=r_['preferred'], namespaced=True)
+            reg = kopf.OperatorRegistry()
+            def fn(**_): pass
+            try:
+                if nt in ('any', 'everything') and kw:
+                    kopf.on.event(*pos, registry=reg, id='h')(fn)
+                else:
+                    kopf.on.event(*args, registry=reg, id='h', **kws)(fn)
+            except TypeError:
+                continue
+            cause = causes.WatchingCause(resource=res, indices=indexing.OperatorIndexers().indices, logger=log, patch=patches.Patch(),
+                                         body=bodies.Body({'metadata': {'name': 'o', 'uid': 'u'}}), memo=ephemera.Memo(), type='MODIFIED', event={'type': 'MODIFIED', 'object': {}})
+            invoked = len(reg._watching.get_handlers(cause)) == 1
+            recs.append({'kind': 'selector', 'sel': {'group': 'any' if g is None else g, 'version': 'any' if v is None else v, 'nt': nt, 'name': nm},
+                         'res': {k: r_[k] for k in ('group', 'version', 'plural', 'kind', 'singular', 'shortcuts', 'categories', 'preferred')},
+                         'checked': bool(sel.check(res)), 'invoked': invoked})
     return recs
 
 
@@ -154,7 +222,7 @@ def run(ctx, rep) -> None:
     bad = records.judge('Rec_Filters', recs, rep=rep, shard=25000)
     rep.evaluations += len(recs); rep.traces += len(recs); rep.exhaustive = not ctx.quick
     for rec in recs:
-        if rec['kind'] == 'dedup' or any(rec['decl'][k] != 'none' for k in ('lab', 'lab2', 'val', 'old', 'new', 'when')):
+        if rec['kind'] in ('dedup', 'selector') or any(rec['decl'][k] != 'none' for k in ('lab', 'lab2', 'val', 'old', 'new', 'when')):
             rep.nontrivial(rec)
     rep.sample(recs[len(recs) // 3]); rep.sample(recs[-1])
     for i, label in sorted(bad.items()):
